@@ -424,6 +424,7 @@ impl Sim {
         if self.instantiated {
             if self.enabled[prop_index("C06").unwrap()] {
                 crate::probes::probe_exit(self);
+                crate::probes::probe_drain(self);
             }
             if self.enabled[prop_index("C05").unwrap()] {
                 crate::probes::probe_auth(self);
@@ -701,6 +702,11 @@ impl Sim {
                         props.push("C02");
                     } else if *reason == "id_in_use" {
                         props.push("C11");
+                        // re-recording an approved ask erases its approval and the approver's escrow record
+                        let (an, _) = req.named();
+                        if an.iter().any(|i| matches!(book_pre.asks.get(i).map(|a| &a.class), Some(AskClass::Ready { .. }))) {
+                            props.push("C08");
+                        }
                     } else if *reason == "bid_fee_unpayable" {
                         // C03 does not forbid the match; but no settlement of it can satisfy C02/C17
                         props = vec!["C02", "C17"];
@@ -1783,6 +1789,17 @@ impl Sim {
                     let after = self.book.bids.get(id).map(|x| x.unfilled()).unwrap_or(0);
                     if b.unfilled().saturating_sub(after) != r {
                         bad.push(format!("reverse_size={} but the bid's unfilled size fell by {}", r, b.unfilled().saturating_sub(after)));
+                    }
+                    // the quote that went back must be price x reverse_size, plus at most the fee still held
+                    if b.owner != contract {
+                        if let Parsed::Ok(p) = dec::parse(&b.price) {
+                            if let Some(q) = p.mul_int(dec::u(r)).and_then(|t| t.to_int()).and_then(dec::to_u128) {
+                                let back = got(&b.owner, &b.quote_denom);
+                                if back < q as i128 || back > (q + b.unspent_fee()) as i128 {
+                                    bad.push(format!("reverse_size={} at price {} is {} quote, but {} went back to the owner", r, b.price, q, back));
+                                }
+                            }
+                        }
                     }
                     let open = attr("order_open");
                     let on_book = self.book.bids.contains_key(id);
